@@ -789,6 +789,20 @@ where
         }
     }
 
+    /// Verification hook (only with `--cfg pdatastructs_verif`): read-only view of the internal
+    /// layout without triggering a merge: centroids and backlog as `(count, sum)` pairs, and the
+    /// sample counter handed to the scale function.
+    #[cfg(pdatastructs_verif)]
+    #[allow(clippy::type_complexity)]
+    pub fn verif_layout(&self) -> (Vec<(f64, f64)>, Vec<(f64, f64)>, usize) {
+        let inner = self.inner.borrow();
+        (
+            inner.centroids.iter().map(|c| (c.count, c.sum)).collect(),
+            inner.backlog.iter().map(|c| (c.count, c.sum)).collect(),
+            inner.n_samples,
+        )
+    }
+
     /// Get compression factor of the TDigest.
     pub fn delta(&self) -> f64 {
         self.inner.borrow().scale_function.delta()
